@@ -1169,6 +1169,9 @@ class CursorClient(Client):
                 kind = UNK
             if truth and lk == UNK:
                 kind = UNK
+            if not truth and isinstance(expr, ast.Compare) and not self._cursor_related(expr, s):
+                # `return n > 0` over values the cursor domain does not track: which paths make it false is not known here
+                kind = UNK
             self._check_ctor(s, expr, stmt)
         else:
             self.check_reads(s, value, stmt)
@@ -1195,6 +1198,16 @@ class CursorClient(Client):
 
     def _check_ctor(self, s, expr, stmt):
         pass
+
+    def _cursor_related(self, expr, s):
+        for n in ast.walk(expr):
+            if isinstance(n, (ast.Attribute, ast.Name, ast.Subscript)) and self.is_pos(n) is not None:
+                return True
+            if isinstance(n, ast.Name) and any(s.get((k, n.id)) is not None for k in ('snap', 'cnt', 'bool', 'val', 'peek')):
+                return True
+            if isinstance(n, ast.Call) and isinstance(n.func, ast.Attribute) and self.cursor_of(n.func.value) is not None:
+                return True
+        return False
 
     # ---------------------------------------------------------------- loops
     def _loop_cursor(self, loop):
@@ -1251,7 +1264,7 @@ class CursorClient(Client):
         if v != good:
             self.an.report.bad('SCN-PROGRESS', self.f, loop, 'while %s' % src_of(loop.test),
                                'a path through the loop body reaches the back edge without moving the cursor %s (displacement %s): the loop may not terminate'
-                               % ('forward' if dirn == FWD else 'backward', v), s)
+                               % ('forward' if dirn == FWD else 'backward', v), s, undecided=(v == 'U'))
         else:
             info['ok'] += 1
         return s.drop(('lp', lid, c)).drop_if(lambda k, vv: k[0] == 'lpsnap' and k[1] == lid)
